@@ -135,7 +135,8 @@ VOID_ENTRIES = [
     ('harness_void_loop', 'LOOP(NAME, body): counter := bound, JMPC, body (handed on once), counter - 1, JMP; private counter register; labels set; jumps listed'),
     ('harness_void_while', 'WHILE(NAME, body): condition, JMPC, body (handed on once), JMP; temporary released; labels set; jumps listed'),
     ('harness_void_jumps', 'STOP, label, GOTO, IF nodes routed by dispatchVoid: HALT / label set / JMP / TEST+JMPC, jumps listed'),
-    ('harness_void_program', 'PROGRAM node without PORTS routed by dispatchVoid: JMP, body, RET; definition recorded'),
+    ('harness_void_program', 'PROGRAM node with the PORTS node absent, routed by dispatchVoid (parameter list via stub): NULL handed to dispatchArgs, JMP, body, RET; definition recorded'),
+    ('harness_void_program_in', 'PROGRAM node IN a (OPORTS absent)'), ('harness_void_program_inout', 'PROGRAM node IN a OUT b'),
     ('harness_void_malformed', 'node kinds that cannot stand in statement / value position: MALFORMED_AST, children untouched'),
     ('harness_gen_ast', 'gen_ast(): parsed correctly => root (or NULL) traversed once; else parse errors forwarded one to one as PARSE_ERROR, nothing generated'),
 ]
@@ -145,7 +146,7 @@ VOID_ENTRIES = [
 def void_jobs(tier, tags, ub, timeout, quick_subset):
     d = _defs(6, MINISTL_STR_CAP=24, MINISTL_VEC_CAP=3, GR_CODE=8, GR_REGS=4, GR_SYMS=2, GR_FUNCS=2, GR_SITES=2, GR_PERR=2, GR_MARKS=3, GR_INT=3)
     ents = VOID_ENTRIES if not quick_subset else [e for e in VOID_ENTRIES if e[0] in quick_subset]
-    return [_job(e, d, _stubs({DISPATCH_VOID: 'stub_void'}), SOLVER, 10, tags, ub, timeout,
+    return [_job(e, d, _stubs({DISPATCH_VOID: 'stub_void', R_ARGS: 'stub_args'}), SOLVER, 10, tags, ub, timeout,
                  'layer B, real traversal function on one node with the traversal of its children replaced by an observing stub: ' + a,
                  'one node of the stated kind with the children the parser guarantees (tree invariant in harness/gen_rules.cpp part 6); names concrete; holds for trees of any size by induction over the height',
                  ['dispatchVoid', 'dispatchValue', 'dispatchAssign', 'dispatchLoop', 'dispatchWhile', 'dispatchMark', 'dispatchGoto', 'dispatchIf', 'dispatchProgram', 'dispatchArgs', 'dispatchCallArgs', 'gen_ast'], rec=(R_ARGS, R_CALLARGS, R_VALUE, DISPATCH_VOID))
